@@ -27,6 +27,19 @@ REVERTS = {
 # interpret and the rule cannot tell it from a correct alternative algorithm.  Listed by name with the reason; exit 2 is required for
 # them (exit 0 - a silent pass - would be a self-test failure).
 EXPECTED_NOT_UNDERSTOOD = {
+    "seeded/C03-V/patch.diff": "an np.lexsort fast path for threads without zero-duration events hands the scan an array the comparator never sorted: the tie rules were decided for the comparator, not for a lexicographic key (clause: the comparator sort is on every path)",
+    "seeded/C05-O/patch.diff": "type labels looked up through a table keyed by the running value: the label column is built another way; the old catch came from the label-loop rule reading decisions that are absent from that construction",
+    "seeded/C07-U/patch.diff": "merge_kernel_intervals rewritten with np.flatnonzero / np.maximum.reduceat (running maximum lost): a numpy algorithm the evaluator does not interpret",
+    "seeded/C07-V/patch.diff": "the +-marker counter replaced by forward-filled boolean state columns plus >= in the merge: another sweep algorithm than the two-marker template",
+    "seeded/C08-U/patch.diff": "the traversal variables moved into one walker object shared by all threads: the rule types the edge sites of the walker but does not model the object's lifetime across threads",
+    "seeded/C08-V/patch.diff": "the two window queries rewritten as boolean masks (one half-open, one inclusive): the rule reads query strings",
+    "seeded/C09-E/patch.diff": "critical events derived from the attribution map of the critical edges: the abstract run does not reduce the set comprehension over the edge set to concrete events",
+    "seeded/C09-V/patch.diff": "nx.dag_longest_path replaced by a hand-rolled relaxation over a (ts, is_start, id) order: whether a hand-made order is topological for every graph is not decidable from the shape (same family as C09-T)",
+    "seeded/C12-U/patch.diff": "step lookup vectorised with np.searchsorted over unsorted step starts: searchsorted is not interpreted (same family as C12-C)",
+    "seeded/C12-V/patch.diff": "the last step resolved once from the job-wide symbol table instead of per rank: the trim rule is evaluated for one rank and does not see which table the step name came from",
+    "seeded/C16-L/patch.diff": "the per-pattern duration lists replaced by another accumulator: the rule looks for the two list stores and finds neither (look-for rule: not understood)",
+    "seeded/C17-V/patch.diff": "summaries memoised per (rank, iteration, device) and renamed in place by a later call: the rule evaluates one call and does not model the cache across calls",
+    "seeded/C18-U/patch.diff": "CompositeFilter applies every member to the ORIGINAL frame and intersects the selections: equal to sequential application only for row-local members; the rule recognises the sequential fold only",
     "seeded/C12-C/patch.diff": "step lookup rewritten with np.searchsorted over unsorted annotations: the evaluator has no model of searchsorted",
     "seeded/C07-E/patch.diff": "computation kernels swept unmerged with running >= 3: a different sweep algorithm; the rule only knows the two-merged-operand template",
     "seeded/C11-F/patch.diff": "cat/name encoded with two pd.factorize calls and an offset: ids no longer read from the table; pd.factorize is not interpreted",
@@ -45,6 +58,20 @@ EXPECTED_NOT_UNDERSTOOD = {
 
 # behaviour-preserving refactorings (confirmed: identical observable output, baseline passes) that the checker cannot follow.  Required: exit 0 or 2, never 1.
 REFACTOR_NOT_UNDERSTOOD = {
+    "sa/selftest/never_alarm/C02/refactor_K.diff": "the two side filters share one __call__ in a new base class with class-attribute hooks; get_cpu_gpu_correlation as one .loc[rows, cols].set_axis().reset_index() chain (set_axis is not modelled)",
+    "sa/selftest/never_alarm/C03/refactor_K.diff": "both comparators as dispatch dicts of small rule functions with match on duration classes, a __slots__ key class instead of cmp_to_key, the scan as a generator shared by both builders",
+    "sa/selftest/never_alarm/C04/refactor_K.diff": "per-rank result as a frozen dataclass with __post_init__ / object.__setattr__, a generator method yielding (name, value) pairs, lru_cache closure, assign(**{f-string keys}) in a loop over a ClassVar tuple",
+    "sa/selftest/never_alarm/C05/refactor_K.diff": "the type -> bit assignment and the labels live in a frozen slotted dataclass; the label column is a map over the running values instead of masked stores",
+    "sa/selftest/never_alarm/C07/refactor_K.diff": "the sweep rewritten on numpy arrays (running[:-1] == 3 over consecutive time differences), the per-rank function at module level bound with functools.partial",
+    "sa/selftest/never_alarm/C08/refactor_K.diff": "edge weight by match on the edge type, node rows through assign / rename_axis().reset_index(), the traversal closures as a slotted dataclass visitor",
+    "sa/selftest/never_alarm/C11/refactor_K.diff": "re-encoding through a numpy look-up array (lut[df[col].to_numpy()]), a context manager yielding a lazy map or pool.map, match / case on the parse result",
+    "sa/selftest/never_alarm/C12/refactor_K.diff": "host step lookup with np.select over the reversed steps, match on len(profiler_steps), a frozen slotted dataclass doing the trim",
+    "sa/selftest/never_alarm/C13/refactor_K.diff": "KernelInfo as a NamedTuple with an absorb fold, height as a match on the node, one shared root iterator for the three traversals",
+    "sa/selftest/never_alarm/C16/refactor_K.diff": "the three accumulator dicts as one slotted dataclass ledger, rows walked by zip over four columns",
+    "sa/selftest/never_alarm/C17/refactor_K.diff": "functools.singledispatch adapter, match / case selection helper, add_prefix + outer concat + assign instead of the keyed concat",
+    "sa/selftest/never_alarm/C18/refactor_K.diff": "guards as decorators, constructor validation with positional class patterns (case tuple([int() as a, int() as b])) - positional class patterns are not modelled",
+    "sa/selftest/never_alarm/C19/refactor_K.diff": "the member list driven by dataclasses.fields with getattr loops (collect_from / hand_over), a layout dataclass naming the archive members",
+    "sa/selftest/never_alarm/C20/refactor_K.diff": "a frozen dataclass codec with gzip and plain instances behind every reader / writer, flow ids from an itertools.count default_factory",
     "sa/selftest/never_alarm/C16/refactor_D.diff": "the three accumulator dicts replaced by one dict of dataclass objects filled from a generator function: generators are not interpreted and the result builder has another signature",
     "sa/selftest/never_alarm/C07/refactor_I.diff": "the overlap sweep rewritten on parallel numpy arrays (concatenate / repeat / stable argsort / cumsum): another sweep algorithm than the +-marker template",
     "sa/selftest/never_alarm/C07/refactor_J.diff": "the overlap sweep rewritten on a Series keyed by time stamp with the changes summed per distinct time stamp (groupby(level=0).sum()): another sweep algorithm than the +-marker template",
